@@ -254,6 +254,7 @@ class OptimizerMixin:
 
         # Preserve optimizer state and param_group settings
         old_state = self._optimizer.state.copy()
+        old_params = [p for group in self._optimizer.param_groups for p in group["params"]]
         current_param_group = self._optimizer.param_groups[0].copy()
 
         # Reconnect to new parameters
@@ -263,15 +264,18 @@ class OptimizerMixin:
         # Update state mapping and move tensors to correct device
         new_state = {}
         device = optimizable_params[0].device
-        for i, old_param in enumerate(old_state.keys()):
-            if i < len(optimizable_params):
-                new_param = optimizable_params[i]
-                new_state[new_param] = {}
-                for key, value in old_state[old_param].items():
-                    if isinstance(value, torch.Tensor):
-                        new_state[new_param][key] = value.to(device)
-                    else:
-                        new_state[new_param][key] = value
+        # the state of the i-th old parameter goes to the i-th current parameter (the state
+        # dict only has keys for parameters that have received a gradient, in the order of
+        # their first update, so its key order is not the parameter order)
+        for old_param, new_param in zip(old_params, optimizable_params):
+            if old_param not in old_state:
+                continue
+            new_state[new_param] = {}
+            for key, value in old_state[old_param].items():
+                if isinstance(value, torch.Tensor):
+                    new_state[new_param][key] = value.to(device)
+                else:
+                    new_state[new_param][key] = value
 
         self._optimizer.state.clear()
         self._optimizer.state.update(new_state)
